@@ -1,22 +1,32 @@
-"""For each (mutant, check): apply, run the check, replay the reported file (must reproduce, exit 1),
-revert, replay again (must pass, exit 0)."""
+"""For each (seeded change, check): apply the change in a scratch worktree of /repo, run the check there, replay the
+reported file twice with the change (must reproduce, exit 1, and print the SAME violation line both times), then replay it
+against the unchanged /repo (must pass, exit 0).  usage: replay_roundtrip.py c09k:C09 c07m:C07 ..."""
 import json, os, re, subprocess, sys
 VERIF = os.path.dirname(os.path.dirname(os.path.abspath(__file__)))
 def sh(cmd, **kw): return subprocess.run(cmd, shell=True, capture_output=True, text=True, **kw)
 pairs = [a.split(":") for a in sys.argv[1:]]
-assert sh("git -C /repo status --porcelain").stdout.strip() == ""
 for sid, chk in pairs:
     patch = os.path.join(VERIF, "seeded", sid, "patch.diff")
-    if sh(f"git -C /repo apply {patch}").returncode: sh(f"git -C /repo apply -3 {patch}")
+    wt = f"/tmp/wt/rr-{sid}-{os.getpid()}"
+    os.makedirs("/tmp/wt", exist_ok=True)
+    sh(f"git -C /repo worktree add -q --detach {wt} HEAD")
     try:
-        p = sh(f"/venv/bin/python check.py {chk} --tier quick --no-selftest --no-evidence", cwd=VERIF)
+        if sh(f"git -C {wt} apply {patch}").returncode:
+            print(f"{sid}/{chk}: patch does not apply"); continue
+        env = dict(os.environ, PYTHONPATH=wt)
+        p = sh(f"/venv/bin/python check.py {chk} --tier quick --no-selftest --no-evidence", cwd=VERIF, env=env)
         m = re.search(r"VIOLATION property=\S+ replay=(\S+)", p.stdout)
         if not m:
             print(f"{sid}/{chk}: no violation reported"); continue
         rp = m.group(1)
-        r1 = sh(f"/venv/bin/python check.py {chk} --replay {rp}", cwd=VERIF)
+        r1 = sh(f"/venv/bin/python check.py {chk} --replay {rp}", cwd=VERIF, env=env)
+        r1b = sh(f"/venv/bin/python check.py {chk} --replay {rp}", cwd=VERIF, env=env)
     finally:
-        sh("git -C /repo checkout -- ."); sh("git -C /repo clean -fdq gapic")
+        sh(f"git -C /repo worktree remove --force {wt}")
     r2 = sh(f"/venv/bin/python check.py {chk} --replay {rp}", cwd=VERIF)
-    info = json.load(open(rp)).get("minimisation") or {}
-    print(f"{sid}/{chk}: replay with mutant exit={r1.returncode} (want 1); replay on clean tree exit={r2.returncode} (want 0); minimised={info.get('minimised')} tests={info.get('tests')}", flush=True)
+    d = json.load(open(rp))
+    info = d.get("minimisation") or {}
+    nops = sum(len(a["ops"]) for a in (d.get("scenario") or {}).get("actors", []))
+    how = "world" if d.get("world_replay") else f"prefix({len(d['prefix_scenarios'])})" if d.get("prefix_scenarios") else "scenario"
+    print(f"{sid}/{chk}: replay with the change exit={r1.returncode},{r1b.returncode} (want 1,1) same_output={r1.stdout == r1b.stdout}; "
+          f"on the unchanged tree exit={r2.returncode} (want 0); replays={how} ops={nops} minimised={info.get('minimised')} tests={info.get('tests')}", flush=True)
